@@ -8,7 +8,7 @@
    may overwrite between two library calls; every later output (table dumps,
    notifications, DHCP replies, decline/release frames, purge probes) reads
    retained fields through [deref store]. *)
-From PV Require Import Base.Prelude Base.Text Model.Alias Proofs.Alias.
+From PV Require Import Base.Prelude Base.Text Model.Alias Proofs.Alias Model.AliasHunt Proofs.AliasHunt.
 
 (* Invariant over every history (frames of every handled kind arriving in any
    buffers, any scribbles in between, any library calls): no retained field is
@@ -66,3 +66,32 @@ Example C10_example_history :
   List.length (st_hosts st) = 3%nat /\ List.length (st_macs st) = 3%nat /\ no_ref st = true.
 Proof. exact ex_hist_creates_host. Qed.
 Print Assumptions C10_example_history.
+
+(* ---------------------------------------------------------------- *)
+(* Hunt list of the ICMPv6 spoofer (icmp6spoof.go StartHunt/StopHunt), Model/AliasHunt.v.
+   As found, StartHunt stores the packet.Addr as passed: when the application hunts the sender of
+   the frame it is looking at (StartHunt(frame.SrcAddr)), the hunt list entry and the spoof loop
+   alias the receive buffer ([hunt6_copies] = false). *)
+
+(* the property fails: hunt the sender of a frame, reuse the buffer, StopHunt misses the entry *)
+Theorem C10_hunt6_refuted :
+  exists scr p, running hunt6_copies (hshared scr 0 p) <> running hunt6_copies (hfresh 0 p).
+Proof. exact hunt_refuted_ref. Qed.
+Print Assumptions C10_hunt6_refuted.
+
+(* outside the recorded class (no StartHunt on a frame view in the history) the hunt list is unaffected *)
+Theorem C10_hunt6_partial : forall scr p,
+  known_C10_hunt6 p = false ->
+  hunted (herun hunt6_copies (hshared scr 0 p)) = hunted (herun hunt6_copies (hfresh 0 p)).
+Proof. exact (hunt_partial hunt6_copies). Qed.
+Print Assumptions C10_hunt6_partial.
+
+Example C10_hunt6_partial_nonvacuous : known_C10_hunt6 [HStop [2;0;0;0;0;1]; HStop [2;0;0;0;0;2]] = false.
+Proof. exact hunt_partial_nonvacuous. Qed.
+Print Assumptions C10_hunt6_partial_nonvacuous.
+
+(* and a StartHunt that copies addr.MAC restores the full property for every history *)
+Theorem C10_hunt6_if_copied : forall scr p,
+  hunted (herun true (hshared scr 0 p)) = hunted (herun true (hfresh 0 p)).
+Proof. exact hunt_noninterference_copy. Qed.
+Print Assumptions C10_hunt6_if_copied.
